@@ -869,3 +869,105 @@ class Interp:
         if bad:
             raise Violation("Minify wrote before its buffer", key="minify-oob")
         return "minify"
+
+    # ------------------------------------------------------------ C19: sorting and utilities that sort internally
+    def plain_root(self, r):
+        """no references and no key-less members of objects anywhere below r"""
+        def rec(n, in_obj):
+            if n.is_ref:
+                return False
+            if in_obj and n.key is None:
+                return False
+            return all(rec(c, n.t == "O") for c in n.children)
+        return rec(r, False)
+
+    def resync(self, n, what, must_sort=None):
+        """the call may have reordered members: the library's order must be a permutation of the model's members
+        (same nodes); adopt it. must_sort: None or (case_sensitive flag) for the object that was sorted explicitly."""
+        lib = self.lib
+        if n.is_ref:
+            return
+        if n.t in "AO":
+            kids = lib.children(n.ptr)
+            byptr = {}
+            for c in n.children:
+                byptr.setdefault(c.ptr, []).append(c)
+            if sorted(kids) != sorted(c.ptr for c in n.children):
+                raise Violation("%s: the members of a container are no longer the same nodes (%d before, %d after)" % (what, len(n.children), len(kids)),
+                                key="sort-members")
+            if n.t == "A" and kids != [c.ptr for c in n.children]:
+                raise Violation("%s: the order of an array changed" % what, key="sort-array-order")
+            n.children = [byptr[p].pop() for p in kids]
+            for c in n.children:
+                self.resync(c, what)
+
+    def op_sort(self, a, b, c, d):
+        w, lib = self.w, self.lib
+        objs = [x for x in w.containers("O") if all(ch.key is not None for ch in x.children)]
+        obj = pick(objs, a)
+        if obj is None:
+            return "skip"
+        cs = bool(b & 1)
+        before = [ch.key for ch in obj.children]
+        keyf = (lambda k: k) if cs else model.fold
+        already = all(keyf(before[i]) <= keyf(before[i + 1]) for i in range(len(before) - 1))
+        (lib.cJSONUtils_SortObjectCaseSensitive if cs else lib.cJSONUtils_SortObject)(obj.ptr)
+        self.resync(obj, "SortObject%s" % ("CaseSensitive" if cs else ""))
+        keys = [ch.key for ch in obj.children]
+        for i in range(len(keys) - 1):
+            if keyf(keys[i]) > keyf(keys[i + 1]):
+                raise Violation("SortObject%s: key %r comes before %r" % ("CaseSensitive" if cs else "", keys[i], keys[i + 1]), key="sort-order")
+        # idempotence: a second sort leaves the key sequence unchanged (and the nodes, when keys are distinct under the comparison)
+        order1 = lib.children(obj.ptr)
+        (lib.cJSONUtils_SortObjectCaseSensitive if cs else lib.cJSONUtils_SortObject)(obj.ptr)
+        order2 = lib.children(obj.ptr)
+        self.resync(obj, "second SortObject")
+        if [ch.key for ch in obj.children] != keys and [keyf(ch.key) for ch in obj.children] != [keyf(k) for k in keys]:
+            raise Violation("sorting twice changes the key sequence", key="sort-idempotence")
+        if len(set(keyf(k) for k in keys)) == len(keys) and order1 != order2:
+            raise Violation("sorting twice changes the member order although keys are distinct", key="sort-idempotence")
+        self.touch(obj, edit=True)
+        self.feat.add("sort")
+        if len(before) >= 3 and not already:
+            self.feat.add("sort_unsorted>=3")
+            self.sorted_unsorted = True
+        return "sort(cs=%d,n=%d,%s)" % (cs, len(before), "already sorted" if already else "reordered")
+
+    def op_util_sorting(self, a, b, c, d):
+        """utility calls that sort internally: patch 'test', GeneratePatches, GenerateMergePatch"""
+        w, lib = self.w, self.lib
+        roots = [r for r in self.clean_roots() if self.plain_root(r)]
+        r1 = pick(roots, a)
+        r2 = pick(roots, b)
+        if r1 is None:
+            return "skip"
+        k = c % 3
+        cs = d & 1
+        if k == 0:
+            # [{"op":"test","path":"","value":<copy of r1>}]
+            patch = lib.cJSON_CreateArray()
+            op = lib.cJSON_CreateObject()
+            lib.cJSON_AddItemToObject(op, b"op", lib.cJSON_CreateString(b"test"))
+            lib.cJSON_AddItemToObject(op, b"path", lib.cJSON_CreateString(b""))
+            lib.cJSON_AddItemToObject(op, b"value", lib.cJSON_Duplicate(r1.ptr, 1))
+            lib.cJSON_AddItemToArray(patch, op)
+            (lib.cJSONUtils_ApplyPatchesCaseSensitive if cs else lib.cJSONUtils_ApplyPatches)(r1.ptr, patch)
+            lib.cJSON_Delete(patch)
+            self.resync(r1, "patch test")
+            what = "patch_test"
+        else:
+            if r2 is None or r2 is r1:
+                return "skip"
+            if k == 1:
+                p = (lib.cJSONUtils_GeneratePatchesCaseSensitive if cs else lib.cJSONUtils_GeneratePatches)(r1.ptr, r2.ptr)
+                what = "generate_patches"
+            else:
+                p = (lib.cJSONUtils_GenerateMergePatchCaseSensitive if cs else lib.cJSONUtils_GenerateMergePatch)(r1.ptr, r2.ptr)
+                what = "generate_merge_patch"
+            if p:
+                lib.cJSON_Delete(p)
+            self.resync(r1, what)
+            self.resync(r2, what)
+        self.feat.add("util_sorting")
+        self.sorted_unsorted = getattr(self, "sorted_unsorted", False) or any(x.t == "O" and len(x.children) >= 3 for x in w.all_nodes())
+        return what
